@@ -40,6 +40,16 @@ def held_all(spaces):
                 out[(s.fullname + "." + c.name, _key(k))] = v
         todo.extend(s.itemspaces.values())
     return out
+def items_all(spaces):
+    """names of the ItemSpaces that exist in the given spaces: {(space fullname, key)}"""
+    out = set()
+    todo = list(spaces)
+    while todo:
+        s = todo.pop()
+        for k, it in s.itemspaces.items():
+            out.add((s.fullname, _key(k)))
+            todo.append(it)
+    return out
 def calc_positions(actions):
     """{(cells fullname, key): [indices of the calc steps naming it]}, calc step index per block"""
     pos = {}
@@ -265,7 +275,12 @@ class Model16:
         tl = sorted(targets, reverse=(order == "desc"))
         tags = {"step-1" if step == 1 else ("step-ge-n" if step >= rep.n else "step-mid"),
                 "targets-1" if len(tl) == 1 else "targets-multi"}
-        tags |= {"kind-" + k for k in set(rep.kinds)}
+        ks = set(rep.kinds)
+        tags.add("rep-scalar" if ks == {"S"} else ("rep-param" if ks == {"P"} else "rep-mixed"))
+        if "I" in ks:
+            tags.add("kind-I")              # ItemSpace cells among the elements
+        if rep.inputs:
+            tags.add("has-input-leaf")
         if rep.passthru:
             tags.add("uncached-pass-through")
         if any(t2 in rep.needed([t1]) for t1 in tl for t2 in tl if t1 != t2):
@@ -277,8 +292,8 @@ class Model16:
         need = rep.needed(tl)
         ckey = (rep.key(), tuple(tl), step, recalc)
 
-        def fail(check, what, tail):
-            self.dirty = True
+        def fail(check, what, tail, dirty=True):
+            self.dirty = self.dirty or dirty
             res.fail(tags=tuple(tags | {check}), what=what, script=rec.script(tail), case=ckey)
 
         nontrivial = len(need) > 1 or len(tl) > 1
@@ -288,6 +303,8 @@ class Model16:
                 rec.do("mx.set_recalc(True)")
             inputs_held = dict(rec.ev("held_all(%s)" % rep.spaces_expr))
             rec.do("targets = [%s]" % ", ".join(rep.node_expr(t) for t in tl))
+            rec.do("items0 = items_all(%s)" % rep.spaces_expr)
+            items0 = rec.ns["items0"]
             names = None
             try:
                 rec.do("actions = m.generate_actions(targets, step_size=%d)" % step)
@@ -303,6 +320,11 @@ class Model16:
                 fail("chk-generate-leftover", "generate_actions left calculated values behind: %r" % (extra,),
                      "inputs = %r\nsys.exit(1 if [k for k in held_all(%s) if k not in inputs] else 0)"
                      % (sorted(inputs_held), rep.spaces_expr))
+            new_items = rec.ev("items_all(%s)" % rep.spaces_expr) - items0
+            if new_items:
+                fail("chk-generate-leftover-itemspace", "generate_actions left ItemSpaces behind that it created while "
+                     "tracing: %r" % (sorted(new_items),),
+                     "sys.exit(1 if items_all(%s) - items0 else 0)" % rep.spaces_expr, dirty=False)
             if set(inputs_held) - set(left):
                 fail("chk-generate-input-lost", "generate_actions removed input values: %r"
                      % (sorted(set(inputs_held) - set(left)),),
@@ -346,6 +368,12 @@ class Model16:
                 fail("chk-leftover", "calculated values left behind after the run: %r" % (extra,),
                      "keep = %r\nsys.exit(1 if [k for k in held_all(%s) if k not in keep] else 0)"
                      % (sorted(tnames | set(inputs_held)), rep.spaces_expr))
+            if not any(rep.kinds[t] == "I" for t in tl):
+                new_items = rec.ev("items_all(%s)" % rep.spaces_expr) - items0
+                if new_items:
+                    fail("chk-leftover-itemspace", "ItemSpaces calculated for the run are left behind (no target lives "
+                         "in them): %r" % (sorted(new_items),),
+                         "sys.exit(1 if items_all(%s) - items0 else 0)" % rep.spaces_expr, dirty=False)
             twice = sorted({i for i in log if log.count(i) > 1})
             if twice:
                 fail("chk-computed-twice", "formulas of elements %r ran more than once during the run (log %r)"
@@ -353,7 +381,13 @@ class Model16:
             # monitor: the evaluator agrees with the model's own direct evaluation
             if recalc:
                 rec.do("mx.set_recalc(False)")
-            rec.do("m.clear_all()")
+            try:
+                rec.do("m.clear_all()")
+            except Exception as e:
+                rec.lines.pop()
+                fail("chk-clear-after-run", "clear_all() after the run raised %s: %s" % (type(e).__name__, str(e)[:200]),
+                     "try:\n    m.clear_all()\nexcept Exception:\n    sys.exit(1)\nsys.exit(0)")
+                return
             rep.set_inputs(rec)
             for t in tl:
                 try:
@@ -361,7 +395,10 @@ class Model16:
                 except Exception:
                     v = "<raised>"
                 res.monitor("independent evaluator = direct evaluation", v == rep.value(t))
-            rec.do("m.clear_all()")
+            try:
+                rec.do("m.clear_all()")
+            except Exception:
+                self.dirty = True
             if "I" in rep.kinds and rec.ev("len(Itm.itemspaces)"):
                 pass
         res.sample({"model": rec.lines[1:self.base_len], "targets": [rep.node_expr(t) for t in tl], "step": step},
@@ -448,7 +485,7 @@ def run(res, tier, seed):
             all_runs(res, make_rep(5, deps, rnd, k % 3), rnd, max_runs=24)
     # seeded sampling beyond the exhaustive bound (drawn up front from res.rng: same seed, same cases)
     sample = []
-    for _ in range(40 if quick else 4000):
+    for _ in range(40 if quick else 3000):
         n = res.rng.choice([6] if quick else [6, 6, 7])
         deps = [[i for i in range(j) if res.rng.random() < 0.4] for j in range(n)]
         sample.append((n, deps, res.rng.choice([0, 1, 2, 2]), res.rng.getrandbits(32)))
@@ -461,8 +498,9 @@ def run(res, tier, seed):
         run_parallel(res, sample_item, sample, chunk=16, reserve=0.05)
     res.exhaustive = bool(ok)
     res.notes.append("precondition (docs): no calculated value is held when generate_actions is called; step_size >= 1")
-    res.notes.append("not counted as a calculated value: an ItemSpace object created while tracing (its cells' values "
-                     "are counted)")
+    res.notes.append("an ItemSpace created by the run counts as a calculated value (check chk-*-leftover-itemspace, own "
+                     "tags); set_recalc(True) is outside the quantifier and not enumerated (with it, paste recalculates "
+                     "dependents: elements run twice)")
 
 
 if __name__ == "__main__":
